@@ -68,8 +68,11 @@ func (v *Verifier) VerifyContent(ctx context.Context, msg *Message, content []by
 		return nil, nil, nil, errors.New("jws: verifier is not configured")
 	}
 
-	b64Content := b64Encode(content)
-	return v.verify(ctx, msg, content, b64Content)
+	sigContent := content // content for calculating signature
+	if !msg.nb64 {
+		sigContent = b64Encode(content)
+	}
+	return v.verify(ctx, msg, content, sigContent)
 }
 
 func (v *Verifier) verify(ctx context.Context, msg *Message, rawContent, sigContent []byte) (protected, unprotected *Header, payload []byte, err error) {
